@@ -14,20 +14,50 @@ BASIC = ('numeric', 'double', 'logical', 'char', 'unsignedchar')
 STRICT = [False]
 
 
+def _capitalised_args(bare: str) -> bool:
+    """Every template argument is named with a capital first letter (open finding F-37: the
+    guard spells the arguments unchanged, or mapped to MATLAB types, where the class name
+    capitalises them; the two agree only for such arguments)."""
+    inner = bare[bare.index('<') + 1:bare.rindex('>')]
+    leaves = re.findall(r'(?:[A-Za-z_]\w*::)*([A-Za-z_]\w*)', inner)
+    return all(x[:1].isupper() for x in leaves) and not re.search(r'\d+\s*[,>]|<\s*\d', bare)
+
+
+MODCLS = [{}]  # C++ spelling of the module's own template instantiations -> MATLAB class name
+
+
 def arg_family(cpp_type: str) -> str:
     t = TypeInfo(cpp_type)
     if '<' in t.bare:
+        # an instantiation the toolbox has a class for is tested against that class; the
+        # MATLAB name of any other templated type is a label only
+        if t.bare in MODCLS[0] and (STRICT[0] or _capitalised_args(t.bare) or not
+                                    findings.is_open('F-37-matlab-guard-name-of-instantiation')):
+            return 'CLASS:' + MODCLS[0][t.bare]
         return 'TEMPLATED'
     k = family_key(t.bare)
-    return {'int': 'numeric', 'size_t': 'numeric', 'double': 'double', 'Vector': 'double',
-            'Matrix': 'double', 'Point2': 'double', 'Point3': 'double', 'bool': 'logical',
+    # arrays are told apart by shape: Vector n x 1, Point2 2 x 1, Point3 3 x 1
+    return {'int': 'numeric', 'size_t': 'numeric', 'double': 'double', 'Vector': 'double:n,1',
+            'Matrix': 'double', 'Point2': 'double:2,1', 'Point3': 'double:3,1',
+            'bool': 'logical',
             'string': 'char', 'char': 'char', 'unsignedchar': 'unsignedchar'}.get(k, k)
 
 
 def site_families(s):
     out = []
-    for _, t in sorted(s.isa):
+    for pos_, t in sorted(s.isa):
         c = canon(t)
+        sh = getattr(s, 'shape', {}).get(pos_)
+        if c == 'double' and sh:
+            out.append('double:%s,%s' % (sh.get(1, 'n'), sh.get(2, 'n')))
+            continue
+        if t in MODCLS[0].values():
+            out.append('CLASS:' + t)
+            continue
+        if '<' in t and t.rstrip().endswith('>') and not STRICT[0] and \
+                findings.is_open('F-37-matlab-guard-name-of-instantiation'):
+            out.append('CXX-SPELLING')  # F-37: a C++ spelling where a MATLAB class name belongs
+            continue
         out.append(c if c in BASIC else family_key(t))
     return out
 
@@ -131,6 +161,9 @@ def check_overload(site, r, ov, kind, cls, where):
                 # the value goes back as an instance of the generated MATLAB enumeration
                 mm = re.search(r',\s*"([^"]*)"\s*\)\s*;?\s*$', rhs)
                 want_cls = t.bare.replace('::', '.')
+                if '::' not in t.bare and cls and t.bare in [e[0] for e in cls['enums']]:
+                    # an unqualified name inside the class is the class's own enum
+                    want_cls = cls['matlab'] + '.' + t.bare
                 if mm and mm.group(1) != want_cls:
                     probs.append(('C06.return', '%s: out[%d] is wrapped as MATLAB class %r, the '
                                   'enumeration generated for %s is %r' % (
@@ -150,7 +183,8 @@ def _perfect_matching(sites, want):
         n, fam = fams[i]
         k = slots[j]
         return k[0] == n and len(k[1]) == len(fam) and all(
-            x == y or (y == 'TEMPLATED' and x not in BASIC) for x, y in zip(fam, k[1]))
+            x == y or (y == 'TEMPLATED' and x.split(':')[0] not in BASIC) or
+            (x == 'CXX-SPELLING' and y.startswith('CLASS:')) for x, y in zip(fam, k[1]))
     owner = {}
 
     def augment(i, seen):
@@ -177,6 +211,7 @@ def check(case):
         return [Failure('C06.generator-raises', '%s: %s' % (type(e).__name__, str(e)[:300]))]
     out = []
     by_id = dict(w.cases)
+    MODCLS[0] = {c['cpp']: c['matlab'] for c in exp['classes'] if '<' in c['cpp']}
 
     def group(sites, overloads, kind, cls, label):
         # (1) exactly the expected arities / type families are offered
@@ -187,7 +222,8 @@ def check(case):
             fam = site_families(s)
             # templated types are labels only: align with the expectation
             cands = [k for k in want if k[0] == s.nargs and len(k[1]) == len(fam) and all(
-                x == y or (y == 'TEMPLATED' and x not in BASIC) for x, y in zip(fam, k[1]))]
+                x == y or (y == 'TEMPLATED' and x.split(':')[0] not in BASIC) or
+                (x == 'CXX-SPELLING' and y.startswith('CLASS:')) for x, y in zip(fam, k[1]))]
             exact = [k for k in cands if list(k[1]) == fam]
             # prefer an exact match, then a declared signature not yet used up
             free = [k for k in cands if got[k] < want[k]]
@@ -207,7 +243,8 @@ def check(case):
                 continue
             fam = site_families(s)
             cands = [o for o in overloads if len(o['explicit']) == s.nargs and all(
-                x == y or (y == 'TEMPLATED' and x not in BASIC)
+                x == y or (y == 'TEMPLATED' and x.split(':')[0] not in BASIC) or
+                (x == 'CXX-SPELLING' and y.startswith('CLASS:'))
                 for x, y in zip(fam, [arg_family(a[0]) for a in o['explicit']]))]
             best = None
             for o in cands:
